@@ -2,7 +2,7 @@
 from engine.facts import CannotDecide, callee_is, path_matches, strip_generics
 from engine.prov import const_int
 from engine import cfg
-from .common import Table, client_dispatch_poll, reachable_local_fns, norm_path, remaining_time
+from .common import Table, client_dispatch_poll, reachable_local_fns, norm_path, remaining_time, message_send_sites
 
 META = {
     'level': 'other',
@@ -165,15 +165,15 @@ def run(ctx):
         R.ob('C07.client', ('Channel::call', 'queues the caller\'s deadline unchanged'), ok, 'the queued request keeps ctx.deadline (no re-basing)', [f.loc(s)])
     poll = client_dispatch_poll(F)
     reach = reachable_local_fns(F, poll)
-    for g, i, j, s in F.all_aggregates('ClientMessage', 'Request'):
-        if not any(g.id == x.id for x in reach):
-            continue
-        inner = P._field(('agg', g.id, i, j), '0')
+    sends = message_send_sites(F, P, reach, 'Request')
+    R.ob('C07.client', ('dispatch poll', 'request send site'), len(sends) >= 1, 'the dispatch writes requests', [g.loc(t) for g, _, t, _ in sends] or [poll.loc(poll.d)])
+    for g, sbb, st_, agg in sends:
+        inner = P._field(agg, '0')
         rs = P.root(P._field(P._field(inner, 'context'), ctx_dl))
         ids = P.root(P._field(inner, 'id'))
         ok = bool(rs) and all(P.is_call(r, 'mpsc::Receiver::poll_recv') and P.fpath(p)[-2:] == (dr_ctx, ctx_dl) for r, p in rs) and {r for r, _ in rs} == {r for r, _ in ids}
         R.ob('C07.client', ('dispatch poll', 'wire deadline is the queued call\'s deadline'), ok,
-             'Request.context.deadline is the deadline of the same dequeued call', [g.loc(s)])
+             'Request.context.deadline is the deadline of the same dequeued call', [g.loc(st_)])
 
     # ------------------------------------------------------------------ server: deadline untouched up to the handler
     sr = [m for m in F.fns.values() if m.impl_of and m.impl_of.get('self_head') and path_matches(m.impl_of['self_head'], 'server::BaseChannel') and list(m.aggregates('server::TrackedRequest'))]
